@@ -73,20 +73,21 @@ CLAIMED = {
             "Every external TLS decode is exact; every listed binding check is on all Ok paths / controls an error exit; the extension "
             "wire mapping is the identity; imeta keys written are parsed. Value round-trip for arbitrary values is not decided.", "DESIGN.md §4 C15"),
     "C16": ("success-dominance (dedup, preview), symbolic evaluation of process_welcome / accept_welcome / decline_welcome once per state of the stored record (absent / Active / Pending / Inactive), "
-            "constant-write tables for accept/decline",
+            "constant-write tables for accept/decline; sibling agreement of the storage impls' argument-validation bounds along process_welcome's write sequence (both backends)",
             "A recorded wrapper id never writes again; records are written only after a successful preview; writes / disabling under the "
-            "sender-chosen group id happen only when the existing record is not Active (known finding: accept_welcome). Joiner/inviter state "
+            "sender-chosen group id happen only when the existing record is not Active (known finding: accept_welcome); after the first write no storage "
+            "call refuses the invitation on a bound no earlier call enforced (known findings F19). Joiner/inviter state "
             "equality is not decided.", "DESIGN.md §4 C16"),
     "C20": ("who-may-call (snapshot creation), must-pass-through of the retention loop after every queue push, copy-provenance of released "
-            "names, boolean-guard post-dominance of the TTL prune at build()",
+            "names, evaluation of the release loop's index guards for the first indices, boolean-guard post-dominance of the TTL prune at build()",
             "Snapshots are created only by the manager; every push is followed under the same guard by the len>retention loop releasing the "
-            "popped entry; rollback releases the split-off suffix by its own names; build() prunes by now-ttl when persistent. Counts over "
+            "popped entry; rollback releases the split-off suffix by its own names, passing over exactly the consumed entry; build() prunes by now-ttl when persistent. Counts over "
             "real histories are not decided.", "DESIGN.md §4 C20"),
     "C06": ("NoPanic: enumeration of every unwrap/expect/panic!/index/slice-op call and every overflow/bounds assert in MIR with "
-            "dominance-based discharge classes; validate-then-apply ordering; lint-level query; write-set before MLS processing",
+            "dominance-based discharge classes; validate-then-apply ordering incl. the storage impls' size bounds on peer-installed group data; lint-level query; write-set before MLS processing",
             "Every potential panic site in non-test library code is in a discharged class (lock poison, length-guarded index, non-input or "
             "range-checked arithmetic, documented configuration panic, named exception); no fallible input decoder follows a state-advancing "
-            "MLS call; unsafe is forbidden. 'State exactly unchanged for all inputs' and dependency panics are not decided.", "DESIGN.md §4 C06"),
+            "MLS call and no storage bound on peer-installed data can first fire after the merge (known findings F19, F20); unsafe is forbidden. 'State exactly unchanged for all inputs' and dependency panics are not decided.", "DESIGN.md §4 C06"),
     "C13": ("who-may-call (Connection::open), success-dominance chain over PRAGMA statements, must-pass-through (chmod, pre-creation), "
             "lock/recheck dominance in the keyring path, arm-region reachability (existing file never generates a key), compile-fail witnesses",
             "The key is applied first and validated on every Ok path of the single opener; permissions constants and ordering; keyring "
